@@ -12,7 +12,9 @@ EXPLANATION = (
     'addresses are opaque names, counts are concrete integers. Per case: Ok(sel) must hold no duplicates, only members other than the local node, at least as many as the '
     'level requires (exactly n for One / Two / Three); NotEnoughNodes only when fewer other live nodes exist than required. This is exhaustive over the family, not a proof '
     'for every layout; it subsumes N3-N6 below, which are evaluated only when a construct is outside the interpreter\'s vocabulary. '
-    'Structural clauses: N1 a membership update REPLACES the selector\'s per-data-centre layout (wholesale assignment, or clear / retain '
+    'N1.SEM: the chain membership snapshot -> watcher -> set_nodes -> selector actor -> select_nodes interpreted end to end over a queue of updates and requests: every layout the '
+    'selector is shown is exactly the membership of one update, every request is answered with a selection made from the LATEST update (never one cached before it); subsumes N1 / N2. '
+    'Structural clauses (fallback): N1 a membership update REPLACES the selector\'s per-data-centre layout (wholesale assignment, or clear / retain '
     'before the inserts) so that departed data centres are never selected again; N2 the result cache is cleared on every path through the '
     'update arm; N3 every bulk collection site of DCAwareSelector::select_nodes filters the local node (the iterator type handed to '
     'extend contains a Filter whose closure is `item != local_node`); N4 select_n_nodes returns Ok only on the edge selected.len() >= n. '
